@@ -102,6 +102,7 @@ type seqOp struct {
 	CC       int     `json:"cc"`    // 1 = the call is made with an already cancelled context (the scripted loaders ignore it)
 	Dt       int64   `json:"dt"`    // SaveLoad: clock offset between save and load (units)
 	Max2     int64   `json:"max2"`  // SaveLoad: target maximum (0 = same as source)
+	Adv      int64   `json:"adv"`   // units by which the first loader invocation of the operation moves the clock (time passes inside user code)
 	Slow     int64   `json:"slow"`  // SaveLoad: the target's clock moves by this many units while the stream is half read
 }
 
@@ -401,6 +402,13 @@ func errClass(err error) string {
 
 type seqLoader struct{ r *seqRun }
 
+// loaderEntered: the first loader invocation of an operation takes op.Adv units of time
+func (r *seqRun) loaderEntered() {
+	if len(r.loads) == 1 && r.cur.Adv > 0 {
+		r.clk.now.Add(r.cur.Adv * r.cfg.Scale)
+	}
+}
+
 func (l seqLoader) outcome(k int) (int, error) {
 	op := l.r.cur
 	switch op.Ld {
@@ -419,11 +427,13 @@ func (l seqLoader) outcome(k int) (int, error) {
 }
 func (l seqLoader) Load(ctx context.Context, k int) (int, error) {
 	l.r.loads = append(l.r.loads, trLoad{"Load", []int{k}, []int{}})
+	l.r.loaderEntered()
 	l.r.ev = append(l.r.ev, trEv{"L", -1, 0, "L"})
 	return l.outcome(k)
 }
 func (l seqLoader) Reload(ctx context.Context, k int, old int) (int, error) {
 	l.r.loads = append(l.r.loads, trLoad{"Reload", []int{k}, []int{old}})
+	l.r.loaderEntered()
 	l.r.ev = append(l.r.ev, trEv{"L", -1, 0, "L"})
 	return l.outcome(k)
 }
@@ -457,6 +467,7 @@ func (l seqBulkLoader) BulkLoad(ctx context.Context, keys []int) (map[int]int, e
 	ks := append([]int{}, keys...)
 	sort.Ints(ks)
 	l.r.loads = append(l.r.loads, trLoad{"BulkLoad", ks, []int{}})
+	l.r.loaderEntered()
 	l.r.ev = append(l.r.ev, trEv{"L", -1, 0, "L"})
 	return l.outcome()
 }
@@ -477,6 +488,7 @@ func (l seqBulkLoader) BulkReload(ctx context.Context, keys []int, olds []int) (
 		ks[i], os_[i] = kvs[i].k, kvs[i].o
 	}
 	l.r.loads = append(l.r.loads, trLoad{"BulkReload", ks, os_})
+	l.r.loaderEntered()
 	l.r.ev = append(l.r.ev, trEv{"L", -1, 0, "L"})
 	return l.outcome()
 }
